@@ -228,6 +228,13 @@ impl<Data> IoLoopInner for LoopInner<'_, Data> {
         if let Ok(slot) = self.sources.borrow_mut().get_mut(token.inner) {
             slot.source = None;
         }
+        // Stop polling the fd: it may well stay open after the adapter is gone (`into_inner`, or an
+        // adapter over a borrowed fd), and a stale registration would make a later `adapt_io` or
+        // insertion of the same fd fail.
+        if let Ok(poll) = self.poll.try_borrow() {
+            let fd = dispatcher.borrow().fd;
+            let _ = poll.unregister(unsafe { BorrowedFd::borrow_raw(fd) });
+        }
     }
 }
 
